@@ -300,7 +300,7 @@ def writeImpl (h : Nat) : Ty → Val → R Bytes
       let r ← writeList h e vs
       pure (UInt8.ofNat vs.length :: r)
     else .error .short
-  | .fixedDict fs an, .none => if an then .ok [0] else .error .type
+  | .fixedDict _ an, .none => if an then .ok [0] else .error .type
   | .fixedDict fs an, .dict vs => do
     let r ← writeFields h fs vs
     pure ((if an then [1] else []) ++ r)
